@@ -28,7 +28,7 @@ m = {
         'guard': 'arc_swap_verif',
         'enable': 'RUSTFLAGS="--cfg arc_swap_verif" (set in /verif/harness/.cargo/config.toml; the harness depends on /repo by path)',
         'baseline_off_cmd': 'cd /repo && cargo test --workspace --no-fail-fast --offline',
-        'source_commits': ['3d8f2a2', '57d1c79'],
+        'source_commits': ['3d8f2a2', '57d1c79', 'f882319'],
         'add_only': True,
     },
     'engines': [
